@@ -98,6 +98,11 @@ MatLaws(e) ==
                            (x # y /\ y # z /\ x # z /\ M(x, y) /\ M(y, z)) => M(x, z)>>,
         \* the specified order on a homogeneous pool (numbers by magnitude, calendar, ...)
         <<"spec", (ok /\ Det(I)) => \A x \in I, y \in I : (x # y /\ sl[x][y]) => Asc(x, y)>>,
+        \* a NEW comparator asked about one pair decides what sorting the two-key pool {x, y} shows:
+        \* two keys of one kind are a homogeneous pool even when the pool they were taken from is
+        \* mixed (two text keys that begin like weekday names are still ordered as text)
+        <<"pair", (ok /\ e.fresh /\ ~Det(I)) =>
+                    \A x \in I, y \in I : (x # y /\ Det({x, y}) /\ sl[x][y]) => Asc(x, y)>>,
         \* ordered the same way every time (fresh comparator, reused comparator, aliases)
         <<"same", (ok /\ mk \in DOMAIN mats) =>
                     \A x \in I, y \in I : x # y => M(x, y) = (mats[mk][x][y] = 1)>>,
